@@ -344,6 +344,16 @@ def law_batch_subjects(rnd, ev, mods, imps, acc, forced=None):
     subs = rnd.sample(names, min(len(names), rnd.randint(2, 3)))
     okind = rnd.choice(["named", "named", "sub"])
     objs = rnd.sample(names, min(len(names), rnd.randint(1, 3)))
+    if rnd.random() < 0.15:
+        # the SAME batch on both sides (equal lists in the same order), a module next to one of its descendants in it
+        nested = [(a, b) for a in names for b in names if b.startswith(a + ".")]
+        if nested:
+            pair = list(rnd.choice(nested))
+            rest = [m for m in names if m not in pair]
+            subs = pair + (rnd.sample(rest, 1) if rest and rnd.random() < 0.5 else [])
+            rnd.shuffle(subs)
+            objs, okind = list(subs), kind
+            acc.count("batches_with_the_same_nested_list_on_both_sides")
     if forced:
         verb, d, exc, kind, subs, okind, objs = forced
     case = {"kind": "batch_subjects", "mods": mods, "imps": imps, "forced": [verb, d, exc, kind, subs, okind, objs]}
@@ -424,7 +434,7 @@ def floors(acc, tier):
     why = []
     if acc.counters["architectures_with_100_or_more_siblings"] < 10:
         why.append("too few architectures with 100+ sibling modules")
-    for c, n in (("law_regex_pairs", 2000), ("law_partial_pairs", 500), ("law_batch_subject_instances", 500), ("law_batch_object_instances", 500), ("unmatched_regex_cases", 50), ("partial_list_with_unmatched_member", 100)):
+    for c, n in (("law_regex_pairs", 2000), ("law_partial_pairs", 500), ("law_batch_subject_instances", 500), ("law_batch_object_instances", 500), ("unmatched_regex_cases", 50), ("partial_list_with_unmatched_member", 100), ("batches_with_the_same_nested_list_on_both_sides", 50)):
         if acc.counters[c] < n:
             why.append(f"{c}: only {acc.counters[c]}")
     return why
